@@ -213,10 +213,17 @@ Definition within (lb : option V) (x : V) : Prop := match lb with None => True |
 
 (* scipy.optimize.fmin_l_bfgs_b(func, x0, bounds, **kwargs) -> (final_vector, final_f): an ORACLE *)
 Variable scipy : (list V -> F) -> list V -> list (option V * option V) -> kwargs -> list V * F.
-(* the stated contract of the oracle *)
+(* the stated contract of the oracle: the returned point x has the length of the start, is never worse than a FEASIBLE start
+   (an infeasible start is first projected into the box, which may change the objective either way) and a feasible start
+   stays feasible.  NOTHING is assumed about the reported value fx here: when a line search is abandoned
+   (ABNORMAL_TERMINATION_IN_LNSRCH; e.g. maxls = 1) scipy goes back to its previous iterate but reports the value of the
+   rejected trial point, which may exceed the starting objective (observed with scipy 1.14; finding C13-L1) *)
 Definition scipy_contract : Prop :=
   forall func x0 lb kw, let '(x, fx) := scipy func x0 (bounds_of lb x0) kw in
-    length x = length x0 /\ fx = func x /\ leb fx (func x0) = true /\ (Forall (within lb) x0 -> Forall (within lb) x).
+    length x = length x0 /\ (Forall (within lb) x0 -> leb (func x) (func x0) = true /\ Forall (within lb) x).
+(* the documented extra clause "f = value of func at the minimum": holds on every run that does not abandon a line search *)
+Definition scipy_reports_value : Prop :=
+  forall func x0 lb kw, let '(x, fx) := scipy func x0 (bounds_of lb x0) kw in fx = func x.
 (* feasibility alone (scipy projects the start into the box): used for the bound on the result *)
 Definition scipy_feasible : Prop :=
   forall func x0 lb kw, Forall (within lb) (fst (scipy func x0 (bounds_of lb x0) kw)).
@@ -242,20 +249,40 @@ Theorem lbfgsb_wrap : scipy_contract -> forall cb other m0 lb, wf m0 ->
   (* during the call the slot holds the monitor around exactly the user's callback; afterwards the slot and every other
      option are what they were: the object can be reused *)
   kw_callback (o_kwargs_during o) = MonitorOf cb /\ o_kwargs o = mkKw (UserCb cb) other /\
-  (* the returned model is the vector scipy returned, read back through update: same vector, same objective *)
-  tovec (o_model o) = o_final_vector o /\ objective (o_model o) = o_final_f o /\
-  (* never worse than the start *)
-  leb (objective (o_model o)) (objective m0) = true /\
-  (* a feasible start stays feasible *)
-  (Forall (within lb) (tovec m0) -> Forall (within lb) (tovec (o_model o))).
+  (* the returned model is the vector scipy returned, read back through update — not the last evaluated point *)
+  tovec (o_model o) = o_final_vector o /\
+  (* a feasible start (every entry >= lower bound; always the case for lower_bound = -inf): never worse than the start, and
+     the result is feasible *)
+  (Forall (within lb) (tovec m0) ->
+   leb (objective (o_model o)) (objective m0) = true /\ Forall (within lb) (tovec (o_model o))).
 Proof.
   intros HC cb other m0 lb Hwf. unfold lbfgsb_solve. cbn [kw_callback kw_other user_cb].
   specialize (HC (fun v => objective (update m0 v)) (tovec m0) lb (mkKw (MonitorOf cb) other)).
   destruct (scipy (fun v => objective (update m0 v)) (tovec m0) (bounds_of lb (tovec m0)) (mkKw (MonitorOf cb) other)) as [x fx].
-  destruct HC as (Hl & Hf & Hle & Hb). cbn.
-  rewrite (tovec_update m0 x Hl). rewrite update_tovec in Hle by exact Hwf. subst fx.
-  repeat split; auto.
+  destruct HC as (Hl & Hb). cbn.
+  rewrite (tovec_update m0 x Hl). rewrite update_tovec in Hb by exact Hwf.
+  repeat split; auto; apply Hb; assumption.
 Qed.
+
+(* info["final_f"] is the objective of the returned model exactly when scipy reports the value at the point it returns *)
+Theorem lbfgsb_final_f : scipy_reports_value -> forall kw m0 lb,
+  let o := lbfgsb_solve kw m0 lb in objective (o_model o) = o_final_f o.
+Proof.
+  intros HR kw m0 lb. unfold lbfgsb_solve.
+  specialize (HR (fun v => objective (update m0 v)) (tovec m0) lb (mkKw (MonitorOf (user_cb (kw_callback kw))) (kw_other kw))).
+  destruct (scipy _ _ _ _) as [x fx]. cbn. now subst fx.
+Qed.
+(* and then (with the contract) the reported value is no worse than the start either *)
+Corollary lbfgsb_final_f_le : scipy_contract -> scipy_reports_value -> forall cb other m0 lb, wf m0 ->
+  Forall (within lb) (tovec m0) ->
+  leb (o_final_f (lbfgsb_solve (mkKw (UserCb cb) other) m0 lb)) (objective m0) = true.
+Proof.
+  intros HC HR cb other m0 lb Hwf Hfeas. rewrite <- (lbfgsb_final_f HR).
+  apply (lbfgsb_wrap HC cb other m0 lb Hwf). exact Hfeas.
+Qed.
+(* lower_bound = -inf: every start is feasible *)
+Lemma within_none l : Forall (within None) l.
+Proof. apply Forall_forall. intros x _. exact I. Qed.
 
 (* with the oracle's feasibility guarantee every entry of the returned factor matrices respects the lower bound,
    whatever the start was *)
@@ -278,6 +305,27 @@ Proof.
   destruct (scipy _ _ _ _). reflexivity.
 Qed.
 End Lbfgsb.
+
+(* ---- LBFGSB.Monitor: time_trace = np.zeros((maxiter,)), every callback writes time_trace[iter] and advances iter.  scipy
+   completes (and reports through the callback) at least one iteration before it tests the iteration budget, so the number of
+   calls is at most max(maxiter, 1): the write stays inside the array for every maxiter >= 1 and falls outside for maxiter = 0
+   (open finding C13-L2); with max(maxiter, 1) slots (fixes/C13-L2.diff) it never does *)
+Definition monitor_slots (maxiter : nat) : nat := maxiter.
+Definition monitor_slots_fixed (maxiter : nat) : nat := Nat.max maxiter 1.
+(* IndexError on the k-th call (k = 0, 1, ...) *)
+Definition monitor_raises (slots ncalls : nat) : bool := Nat.ltb slots ncalls.
+Theorem monitor_index : forall maxiter ncalls, (ncalls <= Nat.max maxiter 1)%nat ->
+  ((1 <= maxiter)%nat -> monitor_raises (monitor_slots maxiter) ncalls = false) /\
+  monitor_raises (monitor_slots_fixed maxiter) ncalls = false /\
+  (monitor_raises (monitor_slots 0) ncalls = true <-> (1 <= ncalls)%nat).
+Proof.
+  intros maxiter ncalls H. unfold monitor_raises, monitor_slots, monitor_slots_fixed.
+  split; [|split; [|split]].
+  - intros Hm. apply Nat.ltb_ge. lia.
+  - apply Nat.ltb_ge. lia.
+  - intros Hr. apply Nat.ltb_lt in Hr. lia.
+  - intros Hc. apply Nat.ltb_lt. lia.
+Qed.
 
 (* boolean equality of configurations, for the generated correspondence cases *)
 Definition sconf_eqb (a b : sconf) : bool :=
